@@ -129,6 +129,10 @@ def v_rules(schema: Schema, rep: Report):
     ok = sn is not None and any(isinstance(s_, ast.Assign) and text(s_.targets[0]) == "self.name" and Expander(sn).t(s_.value) == params_of(sn)[2] for s_ in own_statements(sn))
     rep.check("V-R4", "Element.__set_name__", ok, "the descriptor does not record the attribute name it is bound to" if not ok else "", f"{trel}:{sn.lineno if sn else 0}")
     g = el.own_func("__get__")
+    if g is not None:
+        from .flat import flat as _flat
+
+        g = _flat(p, TYPES, g, el)
     gp = params_of(g) if g else []
     rps, _ = return_paths(g, expander=Expander(g)) if g else ([], None)
     vals = {rtxt for _p, rtxt, sc in rps if not (rtxt == "None" and sc.get(f"{gp[1]} is None") is True)}
